@@ -89,6 +89,10 @@ def lockset_check(paths, tid, sync):
             elif e[0] == 'unlock': held.discard(e[1])    # unlocking a token held by another thread is how the ring passes it on
             elif e[0] in ('read', 'write', 'next'):
                 if 'rd' not in held: problems.append('worker %d: %s of %s outside the trajectory-reader mutex (held: %s)' % (tid, e[0], e[1] if e[0] != 'next' else 'trajectory reader', sorted(held)))
+            elif e[0] == 'merge' and not sync:
+                # unordered mode: a worker that merges itself must do so under a mutex that all threads share; a mutex object local to
+                # the worker (stack) excludes nobody
+                if not any(not h.startswith('other:') for h in held): problems.append('worker %d: MergeWorker called by the worker under no mutex shared between the threads (held: %s): two workers can be inside the merge step at the same time' % (tid, sorted(held)))
             elif e[0] == 'merge' and sync:
                 if ('out%d' % tid) not in held: problems.append('worker %d: MergeWorker called without holding its output token (held: %s)' % (tid, sorted(held)))
     return sorted(set(problems))
